@@ -6,4 +6,7 @@ LogLast(h, r) == <<r>>
 MCSamples == {0, 1, 2, 7, 9, 10, 99, 100, 999, 1000, 9999, 10000, 10001, 12345, 19999, 20000, 32767, 32768}
 MCFees == {<<0, 0>>, <<1, 0>>, <<1, 1>>, <<5, 1>>, <<25, 2>>, <<333, 3>>, <<999, 3>>, <<1, 4>>, <<3333, 4>>}
 MCStakeSets == {<<0, 10>>, <<5, 5>>, <<1, 2, 3>>, <<0, 7, 7, 7>>, <<100, 1, 1>>, <<3>>, <<0, 1, 1, 1, 1>>}
+GenNext  == Len(hist) < Depth /\ Next
+GenSpec  == Init /\ [][GenNext]_vars
+EmitEdge == PrintT("@@B " \o ToJson(hist'))
 ====
